@@ -25,6 +25,9 @@ VERIF = Path(__file__).resolve().parent.parent
 LEAN = VERIF / "lean"
 REPO = Path(os.environ.get("VERIF_REPO", "/repo"))
 DRIVER = LEAN / ".lake" / "build" / "bin" / "nmdriver"
+TRDRIVER = LEAN / ".lake" / "build" / "bin" / "trdriver"  # definitions regenerated from the Python source (py2lean)
+# request prefixes the translated-source driver answers (lean/TrDriver.lean)
+TR_OPS = ("a1 colname ", "a1 cell ", "a1 range ", "a1 parse ", "a1 coloff ", "items getitem ", "numfmt fracparts ")
 ALLOWED_AXIOMS = {"propext", "Classical.choice", "Quot.sound"}
 FORBIDDEN = re.compile(
     r"\b(sorry|admit|native_decide|bv_decide|implemented_by|unsafe)\b|^\s*axiom\s|maxHeartbeats\s+0\b"
@@ -54,12 +57,12 @@ def exc_name(e: BaseException) -> str:
     return type(e).__name__
 
 
-def run_model(lines: list[str], timeout: int = 3600) -> list[str]:
+def run_model(lines: list[str], timeout: int = 3600, driver: Path | None = None) -> list[str]:
     """Pipe protocol lines through the compiled Lean driver."""
     if not lines:
         return []
     data = ("\n".join(lines) + "\n").encode("utf-8")
-    p = subprocess.run([str(DRIVER)], input=data, capture_output=True, timeout=timeout, check=False)
+    p = subprocess.run([str(driver or DRIVER)], input=data, capture_output=True, timeout=timeout, check=False)
     if p.returncode != 0:
         raise RuntimeError(f"nmdriver exited {p.returncode}: {p.stderr.decode()[:400]}")
     out = p.stdout.decode("utf-8").split("\n")
@@ -87,6 +90,7 @@ class Ctx:
         self.notes: list[str] = []
         self.extra: dict = {}
         self.model_available = True
+        self.translated_available = False  # set by vcheck when the check uses py2lean definitions and trdriver built
         self.t0 = time.time()
 
     @property
@@ -95,8 +99,10 @@ class Ctx:
 
     # -- correspondence ------------------------------------------------------
     def correspond(self, name: str, requests: list[str], impl_out: list[str], *, exhaustive: bool = False,
-                   describe=None, nontrivial=None, keep: int = 3):
-        """Compare implementation outputs with the model on the same protocol lines."""
+                   describe=None, nontrivial=None, keep: int = 3, translated: bool = False):
+        """Compare implementation outputs with the model on the same protocol lines.
+        translated=True: the request lines the translated-source driver understands are also run through the
+        definitions py2lean regenerated from the Python source (validates the translator against the real code)."""
         sub = self.subspaces.setdefault(name, {"cases": 0, "exhaustive": exhaustive, "disagreements": 0})
         sub["cases"] += len(requests)
         self.evaluations += len(requests)
@@ -115,6 +121,16 @@ class Ctx:
                 sub["disagreements"] += 1
                 if len(self.disagreements) < 50:
                     self.disagreements.append({"subspace": name, "request": r, "impl": a, "model": b})
+        if translated and self.translated_available:
+            idx = [i for i, r in enumerate(requests) if r.startswith(TR_OPS)]
+            tr_out = run_model([requests[i] for i in idx], driver=TRDRIVER)
+            sub["translated_source_cases"] = sub.get("translated_source_cases", 0) + len(idx)
+            for i, b in zip(idx, tr_out):
+                if impl_out[i] != b:
+                    sub["disagreements"] += 1
+                    if len(self.disagreements) < 50:
+                        self.disagreements.append({"subspace": name + " [definitions translated from the source]",
+                                                   "request": requests[i], "impl": impl_out[i], "model": b})
 
     def count(self, name: str, n: int = 1, exhaustive: bool | None = None):
         sub = self.subspaces.setdefault(name, {"cases": 0, "exhaustive": bool(exhaustive), "disagreements": 0})
